@@ -120,6 +120,7 @@ type exec struct {
 	uidBytes        map[*Term][]*Term
 	symClock        bool
 	randCounter     uint64
+	pools           map[*value][]value
 	realFormatting  bool
 	bypassIntrinsic *ssa.Function
 	jsonUseNumber   bool
